@@ -270,9 +270,36 @@ func (g *Gen) CallProgram() *Chunk {
 	for i := 0; i < ns; i++ {
 		s := sigs[g.R.Intn(len(sigs))]
 		call := g.callOf(s, sigs, true, 0)
-		ctx := g.R.Intn(9)
+		ctx := g.R.Intn(11)
 		g.cover("context:%d", ctx)
 		switch ctx {
+		case 9:
+			// last position of a constructor behind a whole number of flush batches (50 positional items
+			// each) and one item off either way: all results continue the list
+			t := g.fresh("t")
+			np := 50*(1+g.R.Intn(2)) + []int{0, 0, 0, -1, 1}[g.R.Intn(5)]
+			tab := &ETable{}
+			for j := 1; j <= np; j++ {
+				tab.Items = append(tab.Items, TItem{Kind: TPos, Val: Num(float64(j))})
+			}
+			tab.Items = append(tab.Items, TItem{Kind: TPos, Val: call})
+			b.Stmts = append(b.Stmts, Local1(t, tab),
+				CallSN("emit", Str("cons-batch"), Idx(N(t), Num(1)), Idx(N(t), Num(2)), Idx(N(t), Num(float64(np))), Idx(N(t), Num(float64(np+1))), Idx(N(t), Num(float64(np+2))), Idx(N(t), Num(float64(np+3)))))
+			continue
+		case 10:
+			// xpcall is a host callee with two parameters: surplus arguments (also an open list of them)
+			// are dropped, the caller gets true and exactly the results of the protected function
+			extra := []Expr{}
+			for j, n := 0, 1+g.R.Intn(3); j < n; j++ {
+				extra = append(extra, g.simpleVal())
+			}
+			if g.R.Intn(2) == 0 {
+				extra = append(extra, g.callOf(sigs[g.R.Intn(len(sigs))], sigs, true, 0))
+			}
+			args := append([]Expr{Fn(nil, true, Blk(Return(call))), Fn([]string{"m"}, false, Blk(Return(N("m"))))}, extra...)
+			b.Stmts = append(b.Stmts, CallSN("emit", Str("xpcall-surplus"), CallN("xpcall", args...)),
+				CallSN("emit", Str("xpcall-surplus-count"), CallN("select", Str("#"), CallN("xpcall", args...))))
+			continue
 		case 0:
 			b.Stmts = append(b.Stmts, &SCall{Call: call})
 		case 1:
